@@ -6,6 +6,7 @@ From Coq Require Import String ZArith List Bool.
 From V Require Import Base.Int Base.IO Spec.Gregorian Model.TimeDelta Model.DateTime Model.C03 Proofs.C06 Proofs.C03.
 From V Require Model.Date Model.Time Proofs.C03Headroom Proofs.C03Zone Proofs.C03Nth.
 From V Require Import Proofs.C03Ops Proofs.C03Adapt.
+From V Require Judge.C03 Proofs.C03Holds.
 Import ListNotations.
 Open Scope Z_scope.
 
@@ -603,3 +604,49 @@ Example C03_iter_adaptors_inhabited :
   it_step_by days_next_back 3 true 5 Date.D_MAX <> Val [].
 Proof. exact adapt_examples. Qed.
 Print Assumptions C03_iter_adaptors_inhabited.
+
+(* ================= judge acceptance for the iterator ops =================
+   The executable statement of the property (Judge/C03.v, applied by ./check to every implementation
+   output) accepts the model's output on every in-domain case of these ops: together with the
+   correspondence run (implementation = model) this closes  implementation ~ model |= judge.
+   A date argument is the pair (year, ordinal) of a valid date ([vd y o] = VTup [VInt y; VInt o]); the
+   direction is [dirv fwd] = 0 forward / 1 backward; k and cap range over the 0..5000 the ops accept. *)
+Theorem C03_holds_observe : forall y o k fwd cap,
+  year_in_range y = true -> valid_yo y o = true -> 0 <= k <= 5000 -> 0 <= cap <= 5000 ->
+  let args := [Proofs.C03Holds.vd y o; VInt k; VInt (Proofs.C03Holds.dirv fwd); VInt cap] in
+  Judge.C03.judge B"it.days" args (run B"it.days" args) = JOk /\
+  Judge.C03.judge B"it.weeks" args (run B"it.weeks" args) = JOk /\
+  Judge.C03.judge B"it.drev" args (run B"it.drev" args) = JOk /\
+  Judge.C03.judge B"it.wrev" args (run B"it.wrev" args) = JOk.
+Proof. exact Proofs.C03Holds.holds_observe. Qed.
+Print Assumptions C03_holds_observe.
+(* length hint and len: forward (direction 0); backward the judge rejects the hint: known finding
+   C03-iter-rev-size-hint, C03_hint_backward_refuted *)
+Theorem C03_holds_hint_len_forward : forall y o k,
+  year_in_range y = true -> valid_yo y o = true -> 0 <= k <= 5000 ->
+  let args := [Proofs.C03Holds.vd y o; VInt k; VInt 0] in
+  let args2 := [Proofs.C03Holds.vd y o; VInt k] in
+  Judge.C03.judge B"it.dhint" args (run B"it.dhint" args) = JOk /\
+  Judge.C03.judge B"it.whint" args (run B"it.whint" args) = JOk /\
+  Judge.C03.judge B"it.dlen" args2 (run B"it.dlen" args2) = JOk /\
+  Judge.C03.judge B"it.wlen" args2 (run B"it.wlen" args2) = JOk.
+Proof. exact Proofs.C03Holds.holds_hint_len. Qed.
+Print Assumptions C03_holds_hint_len_forward.
+(* count / last: asked (model, harness and judge alike) within ten years of the end they run to:
+   [near_end_y y fwd] = 262133 <= y forward, y <= -262134 backward; there the loop fuel suffices *)
+Theorem C03_holds_count_last : forall y o fwd,
+  year_in_range y = true -> valid_yo y o = true -> Proofs.C03Holds.near_end_y y fwd = true ->
+  let args := [Proofs.C03Holds.vd y o; VInt (Proofs.C03Holds.dirv fwd)] in
+  Judge.C03.judge B"it.dcount" args (run B"it.dcount" args) = JOk /\
+  Judge.C03.judge B"it.wcount" args (run B"it.wcount" args) = JOk /\
+  Judge.C03.judge B"it.dlast" args (run B"it.dlast" args) = JOk /\
+  Judge.C03.judge B"it.wlast" args (run B"it.wlast" args) = JOk.
+Proof. exact Proofs.C03Holds.holds_end. Qed.
+Print Assumptions C03_holds_count_last.
+Example C03_holds_inhabited :
+  year_in_range 262142 = true /\ valid_yo 262142 100 = true /\ Proofs.C03Holds.near_end_y 262142 true = true /\
+  year_in_range (-262143) = true /\ valid_yo (-262143) 100 = true /\ Proofs.C03Holds.near_end_y (-262143) false = true /\
+  run B"it.dcount" [Proofs.C03Holds.vd 262142 100; VInt 0] = VInt 265 /\
+  run B"it.wlast" [Proofs.C03Holds.vd (-262143) 100; VInt 1] = VSome (Proofs.C03Holds.vd (-262143) 9).
+Proof. exact Proofs.C03Holds.holds_examples. Qed.
+Print Assumptions C03_holds_inhabited.
